@@ -468,45 +468,7 @@ func c07(c *Ctx) {
 	}
 
 	// ------------------------------------------------------------------ G. panic inventory
-	entries := []string{F + "ReadFrame", F + "ReadFrameHeader", F + "ReadFrameForHeader", "http2.ReadFrameHeader", "http2.NewFramer$1",
-		"(*http2.DataFrame).Data", "(*http2.GoAwayFrame).DebugData", "(*http2.HeadersFrame).HeaderBlockFragment",
-		"(*http2.ContinuationFrame).HeaderBlockFragment", "(*http2.PushPromiseFrame).HeaderBlockFragment", "(*http2.UnknownFrame).Payload",
-		"(*http2.SettingsFrame).Value", "(*http2.SettingsFrame).Setting", "(*http2.SettingsFrame).NumSettings", "(*http2.SettingsFrame).HasDuplicates",
-		"(*http2.SettingsFrame).ForeachSetting", "(*http2.SettingsFrame).IsAck", "(*http2.MetaHeadersFrame).PseudoValue", "(*http2.MetaHeadersFrame).RegularFields",
-		"(*http2.MetaHeadersFrame).PseudoFields", "(*http2.DataFrame).StreamEnded", "(*http2.HeadersFrame).HeadersEnded", "(*http2.HeadersFrame).StreamEnded",
-		"(*http2.HeadersFrame).HasPriority", "(*http2.ContinuationFrame).HeadersEnded", "(*http2.PushPromiseFrame).HeadersEnded", "(*http2.PingFrame).IsAck"}
-	// the parsers are reached through the frameParsers table only (a package-level initialiser, which the
-	// reachability of the inventory does not follow): they are entry points in their own right
-	if init, pk := c.P.VarDecl("http2.frameParsers"); init != nil {
-		n := 0
-		for _, el := range Elts(init) {
-			_, v := KV(el)
-			if id, isID := v.(*ast.Ident); isID {
-				if _, isFunc := pk.TypesInfo.Uses[id].(*types.Func); isFunc {
-					entries = append(entries, "http2."+id.Name)
-					n++
-				}
-			}
-		}
-		c.Check(n >= 11, "anchor", "http2.frameParsers lists the parser entry points of the inventory", init.Pos(), fmt.Sprintf("%d parsers", n), fmt.Sprintf("only %d function entries found", n))
-	} else {
-		c.Undecided("anchor", "http2.frameParsers", "literal not found")
-	}
-	entries = append(entries, "http2.parseUnknownFrame", "http2.typeFrameParser")
-	c.PanicInventory(entries, []string{"(*http2/hpack.Decoder).Write", "(*http2/hpack.Decoder).Close"}, map[string]Inv{
-		"(*http2.FrameHeader).checkValid":         {Sites: "panic=1", Why: "documented caller-misuse panic (accessor used after the next ReadFrame invalidated the frame); not reachable from input bytes: ReadFrame never calls accessors on invalidated frames"},
-		F + "ReadFrameForHeader":                  {Sites: "assert=1", Why: "f.(*HeadersFrame) under fh.Type == FrameHeaders (guard obligation); the registry maps FrameHeaders to parseHeadersFrame, whose success returns are *HeadersFrame (obligations below)"},
-		F + "readMetaFrame":                       {Sites: "assert=1", Why: "f.(*ContinuationFrame): ReadFrame is reached only with AllowIllegalReads off and HeadersEnded false, so checkFrameOrder left lastHeaderStream != 0 and accepts only CONTINUATION next (checkFrameOrder obligations); the registry maps FrameContinuation to parseContinuationFrame"},
-		"(*http2.MetaHeadersFrame).PseudoFields":  {Sites: "idx=1", Why: "Fields[:i] with i a range index over Fields"},
-		"(*http2.MetaHeadersFrame).RegularFields": {Sites: "idx=1", Why: "Fields[i:] with i a range index over Fields"},
-		"(*http2.MetaHeadersFrame).PseudoValue":   {Sites: "idx=1", Why: "hf.Name[1:] under hf.IsPseudo(), i.e. len(Name) != 0 (guard obligation below)"},
-		"(*http2.SettingsFrame).Setting":          {Sites: "idx=2", Why: "documented precondition 0 <= i < NumSettings(); every caller in the repository loops below NumSettings() (obligations below) and parseSettingsFrame admits only len(p)%6 == 0"},
-		"http2.parseDataFrame":                    {Sites: "idx=1", Why: "payload[:len(payload)-padSize] under padSize <= len(payload) (upper-bound >= 0 obligation above)"},
-		"http2.parseHeadersFrame":                 {Sites: "idx=1", Why: "p[:len(p)-padLength] under len(p)-padLength >= 0 (upper-bound >= 0 obligation above)"},
-		"http2.parsePushPromise":                  {Sites: "idx=1", Why: "p[:len(p)-padLength] under padLength <= len(p) (upper-bound >= 0 obligation above)"},
-		"http2.ReadFrameHeader":                   {Sites: "assert=1", Why: "fhBytes' New stores *[]byte and the only Put returns the pointer just taken out"},
-		"http2.readFrameHeader":                   {Sites: "idx=2", Why: "buf[:9] and buf[5:]: every caller passes a 9-byte buffer (call-args obligation below)"},
-	})
+	c07FrameInventory(c)
 	// guards the inventory reasons rely on
 	c.GuardP("(*http2.MetaHeadersFrame).PseudoValue", c07AllSlices(), AtomLike("hf.IsPseudo()", TRUE, func(l Lin) bool {
 		ts, _ := LinTerms(l)
@@ -590,4 +552,49 @@ func frRegistryEntry(c *Ctx, key, parser string) bool {
 	}
 	c.Fail(rule, construct, init.Pos(), "no entry for "+key)
 	return false
+}
+
+// c07FrameInventory is the panic-site inventory of the frame reader (also run
+// for C16: the server's read loop is exactly this code).
+func c07FrameInventory(c *Ctx) {
+	const F = "(*http2.Framer)."
+	entries := []string{F + "ReadFrame", F + "ReadFrameHeader", F + "ReadFrameForHeader", "http2.ReadFrameHeader", "http2.NewFramer$1",
+		"(*http2.DataFrame).Data", "(*http2.GoAwayFrame).DebugData", "(*http2.HeadersFrame).HeaderBlockFragment",
+		"(*http2.ContinuationFrame).HeaderBlockFragment", "(*http2.PushPromiseFrame).HeaderBlockFragment", "(*http2.UnknownFrame).Payload",
+		"(*http2.SettingsFrame).Value", "(*http2.SettingsFrame).Setting", "(*http2.SettingsFrame).NumSettings", "(*http2.SettingsFrame).HasDuplicates",
+		"(*http2.SettingsFrame).ForeachSetting", "(*http2.SettingsFrame).IsAck", "(*http2.MetaHeadersFrame).PseudoValue", "(*http2.MetaHeadersFrame).RegularFields",
+		"(*http2.MetaHeadersFrame).PseudoFields", "(*http2.DataFrame).StreamEnded", "(*http2.HeadersFrame).HeadersEnded", "(*http2.HeadersFrame).StreamEnded",
+		"(*http2.HeadersFrame).HasPriority", "(*http2.ContinuationFrame).HeadersEnded", "(*http2.PushPromiseFrame).HeadersEnded", "(*http2.PingFrame).IsAck"}
+	// the parsers are reached through the frameParsers table only (a package-level initialiser, which the
+	// reachability of the inventory does not follow): they are entry points in their own right
+	if init, pk := c.P.VarDecl("http2.frameParsers"); init != nil {
+		n := 0
+		for _, el := range Elts(init) {
+			_, v := KV(el)
+			if id, isID := v.(*ast.Ident); isID {
+				if _, isFunc := pk.TypesInfo.Uses[id].(*types.Func); isFunc {
+					entries = append(entries, "http2."+id.Name)
+					n++
+				}
+			}
+		}
+		c.Check(n >= 11, "anchor", "http2.frameParsers lists the parser entry points of the inventory", init.Pos(), fmt.Sprintf("%d parsers", n), fmt.Sprintf("only %d function entries found", n))
+	} else {
+		c.Undecided("anchor", "http2.frameParsers", "literal not found")
+	}
+	entries = append(entries, "http2.parseUnknownFrame", "http2.typeFrameParser")
+	c.PanicInventory(entries, []string{"(*http2/hpack.Decoder).Write", "(*http2/hpack.Decoder).Close"}, map[string]Inv{
+		"(*http2.FrameHeader).checkValid":         {Sites: "panic=1", Why: "documented caller-misuse panic (accessor used after the next ReadFrame invalidated the frame); not reachable from input bytes: ReadFrame never calls accessors on invalidated frames"},
+		F + "ReadFrameForHeader":                  {Sites: "assert=1", Why: "f.(*HeadersFrame) under fh.Type == FrameHeaders (guard obligation); the registry maps FrameHeaders to parseHeadersFrame, whose success returns are *HeadersFrame (obligations below)"},
+		F + "readMetaFrame":                       {Sites: "assert=1", Why: "f.(*ContinuationFrame): ReadFrame is reached only with AllowIllegalReads off and HeadersEnded false, so checkFrameOrder left lastHeaderStream != 0 and accepts only CONTINUATION next (checkFrameOrder obligations); the registry maps FrameContinuation to parseContinuationFrame"},
+		"(*http2.MetaHeadersFrame).PseudoFields":  {Sites: "idx=1", Why: "Fields[:i] with i a range index over Fields"},
+		"(*http2.MetaHeadersFrame).RegularFields": {Sites: "idx=1", Why: "Fields[i:] with i a range index over Fields"},
+		"(*http2.MetaHeadersFrame).PseudoValue":   {Sites: "idx=1", Why: "hf.Name[1:] under hf.IsPseudo(), i.e. len(Name) != 0 (guard obligation below)"},
+		"(*http2.SettingsFrame).Setting":          {Sites: "idx=2", Why: "documented precondition 0 <= i < NumSettings(); every caller in the repository loops below NumSettings() (obligations below) and parseSettingsFrame admits only len(p)%6 == 0"},
+		"http2.parseDataFrame":                    {Sites: "idx=1", Why: "payload[:len(payload)-padSize] under padSize <= len(payload) (upper-bound >= 0 obligation above)"},
+		"http2.parseHeadersFrame":                 {Sites: "idx=1", Why: "p[:len(p)-padLength] under len(p)-padLength >= 0 (upper-bound >= 0 obligation above)"},
+		"http2.parsePushPromise":                  {Sites: "idx=1", Why: "p[:len(p)-padLength] under padLength <= len(p) (upper-bound >= 0 obligation above)"},
+		"http2.ReadFrameHeader":                   {Sites: "assert=1", Why: "fhBytes' New stores *[]byte and the only Put returns the pointer just taken out"},
+		"http2.readFrameHeader":                   {Sites: "idx=2", Why: "buf[:9] and buf[5:]: every caller passes a 9-byte buffer (call-args obligation below)"},
+	})
 }
